@@ -904,9 +904,6 @@ func TestVerif_C08_Crash(t *testing.T) {
 		}
 		done++
 		cfg := c08GenCfg(t)
-		if rapid.IntRange(0, 3).Draw(t, "forceIncr") > 0 {
-			cfg.JobType = JobTypeIncremental // the statement's crash window lies in the incremental pipeline
-		}
 		root := kit.NewDir("c08crash")
 		defer os.RemoveAll(root)
 		// the store prefixes of the pool namespaces are assigned in creation order:
